@@ -103,6 +103,9 @@ func c02HistOne(c *mc.Ctx, k c02Hist) {
 			case skDecStream:
 				er = NewEnvReader(stream, k.Env)
 				r = bufiox.NewDefaultReader(er)
+				if round == 1 {
+					r = customReader{r} // the pooled decoder is handed out again, now over a reader type of the caller's own
+				}
 				sd := thrift.NewSkipDecoder(r)
 				d, release = sd, sd.Release
 			case skDecBytesR:
